@@ -7,3 +7,6 @@ import VibeProof.Props.C17
 #print axioms VibeProof.C17.C17_delete_partial
 #print axioms VibeProof.C17.C17_delete_specific_partial
 #print axioms VibeProof.C17.C17_run_refines
+#print axioms VibeProof.C17.C17_delete
+#print axioms VibeProof.C17.C17_delete_specific
+#print axioms VibeProof.C17.C17_bulk_load
